@@ -30,6 +30,7 @@ fam('annot_keys', depth=3, maxstack=4,
 fam('annot_lambda', depth=4, maxstack=3,
     inits=[(S(NAT, i(1)),), (S(P(NAT, NAT), p(i(5), i(6))), S(NAT, i(1)))],
     alphabet=[('LAMBDA', P(NAT, NAT), NAT, (('CAR',),)), ('LAMBDA', P(NAT, P(NAT, NAT)), NAT, (('CDR',), ('CAR',))), ('LAMBDA', P(NAT, NAT), P(NAT, NAT), (('UNPAIR', 2), ('SWAP',), ('PAIR', 2))),
+              ('LAMBDA', P(P(NAT, NAT), NAT), NAT, (('CAR',), ('CDR',))),      # the captured (left) type is compound
               ('APPLY',), ('EXEC',), PUSH(NAT, i(2)), ('SWAP',), ('DIG', 2)])
 
 FAMS = ['comb', 'annot_text', 'annot_keys', 'adt', 'optlist', 'types_map', 'types_list', 'annot_lambda']
@@ -45,6 +46,8 @@ def annotate_type(tj, scheme, path=(), parent=None, idx=0):
         ann.append('%%f%d' % (len(path) * 2 + idx))
     if scheme in ('type-all', 'both-all'):
         ann.append(':t%d' % (len(path) * 2 + idx))
+    if scheme == 'field-leaves' and in_pair_or and tj.get('prim') not in ('pair', 'or'):
+        ann.append('%%l%d' % (len(path) * 2 + idx))      # annotated leaves under nodes that carry no annotation themselves
     if scheme == 'field-inner-pairs' and inner_pair:
         ann.append('%inner')
     if scheme == 'type-inner-pairs' and inner_pair:
@@ -157,7 +160,7 @@ def replay_fn(ctx, prop, fname, st):
                                  fname, json.dumps(to_json(prog)), json.dumps(to_json(init)), scheme, ' plus a field annotation on the type argument' if root else '', got, base_unp),
                              dict(case, scheme=scheme))
                 bad = 'unpack'
-    for scheme in SCHEMES:
+    for scheme in SCHEMES + (['field-leaves'] if fname == 'annot_lambda' else []):
         if base_packed is not None:
             ann_packed = packed_slots(init, env, prog, scheme)
             if ann_packed != base_packed:
